@@ -168,6 +168,12 @@ def make_record(pa, c, d, al, D, de_int, scale, mode, tol, *, search, band=0, wa
     if with_recompute:
         cls = type(al)
         fresh = cls([pa.UnitaryAlignment(list(ua.n_tuple)) for ua in uas], c)
+        # the disorder of this very object is first computed under ANOTHER dissimilarity, then under d: what is judged is the
+        # second computation (nothing of the first may be remembered)
+        try:
+            fresh.compute_disorder(pa.PositionalSporadicDissimilarity(delta_empty=0.25))
+        except Exception:
+            pass
         rtot = sc(fresh.compute_disorder(d) * (U / n), k)
         rud = [sc(x.disorder, k) for x in fresh.unitary_alignments]
         rng = rng or random.Random(0)
